@@ -94,6 +94,16 @@ def a32Patch (src target : Nat) (addr : Nat) (impl : List Nat) (saved : List Nat
     | _ => some "translated=no-single-copy"
   | (Res.panic w, _) => some ("translated=panic:" ++ w)
 
+/-- the forced-boolean gate as translated (`signature_returns_bool` run on the recorded text), against what
+    the implementation did (`accept` / `sigpanic`) -/
+def sigBool (text : String) (out : String) : Option String :=
+  match GenIf.signature_returns_bool Mode.debug text.toList, GenIf.signature_returns_bool Mode.release text.toList with
+  | Res.ok b, Res.ok b' =>
+    if b != b' then some "profiles-differ"
+    else if (if b then "accept" else "sigpanic") == out then none else some ("gate=" ++ toString b)
+  | Res.panic w, _ => if out == "panic:" ++ w then none else some ("panic:" ++ w)
+  | _, Res.panic w => some ("release-panic:" ++ w)
+
 /-- fold the translated function's verdict into a line verdict: a difference is a disagreement
     (between the source as translated and the implementation's observation) -/
 def withGen (v : Verdict) (g : Option String) : Verdict :=
